@@ -5,7 +5,10 @@
 //
 // op grammar (one per line):
 //
-//	reset <empty|seeded> <pd0> <validation 0|1>   new oracle; PD has issued pd0; seeded = NewPdOracle (one GetTimestamp)
+//	reset <empty|seeded> <pd0> <validation 0|1> [<updater 0|1>]   new oracle; PD has issued pd0; seeded = NewPdOracle (one
+//	                                              GetTimestamp); updater = the background updateTS goroutine runs (hour ticker)
+//	tick                                          the updater performs one update now (its own loop, doUpdate) -> upd pending | upd idle
+//	                                              its PD request is then addressed as `u`:  issue u <inc>, arrive u
 //	get <t> | aget <t>                            thread t calls GetTimestamp / GetTimestampAsync+Wait      -> pending
 //	val <t> <readTS> <stale 0|1>                  thread t calls ValidateReadTS   -> accept | err-range | err-latest | <outcome>
 //	issue <t|f> <inc>                             PD assigns last+inc+1 to the request of thread t / of the flight -> ts
@@ -56,7 +59,7 @@ type ownerKey struct{}
 // ---------------------------------------------------------------- scripted PD
 
 type pdCall struct {
-	owner    int // thread id, -1 = not a client thread (validation flight)
+	owner    int // thread id, -1 = validation flight, -2 = background updater (updateTS)
 	ch       chan uint64
 	issued   bool
 	released bool
@@ -96,10 +99,28 @@ func (c *scriptPD) register(ctx context.Context) (*pdCall, uint64, bool) {
 	owner := -1
 	if v, ok := ctx.Value(ownerKey{}).(int); ok {
 		owner = v
+	} else if calledFromUpdater() {
+		owner = -2
 	}
 	call := &pdCall{owner: owner, ch: make(chan uint64, 1)}
 	c.calls = append(c.calls, call)
 	return call, 0, false
+}
+
+// calledFromUpdater: is pdOracle.updateTS on the call stack (the request comes from the background updater)?
+func calledFromUpdater() bool {
+	pcs := make([]uintptr, 32)
+	n := runtime.Callers(2, pcs)
+	frames := runtime.CallersFrames(pcs[:n])
+	for {
+		fr, more := frames.Next()
+		if strings.Contains(fr.Function, "(*pdOracle).updateTS") {
+			return true
+		}
+		if !more {
+			return false
+		}
+	}
 }
 
 //go:noinline
@@ -173,13 +194,15 @@ func quiesce() {
 }
 
 var (
-	sepB     = []byte("\n\n")
-	byMain   = []byte("created by main.")
-	byFlight = []byte("singleflight.(*Group).DoChan")
-	atPD     = []byte("main.(*scriptPD).await(")
-	atFlight = []byte("getCurrentTSForValidation(")
-	stRecv   = []byte("chan receive")
-	stSelect = []byte("select")
+	sepB      = []byte("\n\n")
+	byMain    = []byte("created by main.")
+	byFlight  = []byte("singleflight.(*Group).DoChan")
+	byUpdater = []byte("(*pdOracle).updateTS")
+	byOracles = []byte("created by github.com/tikv/client-go/v2/oracle/oracles.")
+	atPD      = []byte("main.(*scriptPD).await(")
+	atFlight  = []byte("getCurrentTSForValidation(")
+	stRecv    = []byte("chan receive")
+	stSelect  = []byte("select")
 )
 
 func allParked(dump []byte) bool {
@@ -192,7 +215,9 @@ func allParked(dump []byte) bool {
 		}
 		// goroutines started by the harness (workers) and by singleflight (flights); a goroutine that has not run yet
 		// only shows its `go` wrapper frame, so they are recognised by their creator
-		if !bytes.Contains(g, byMain) && !bytes.Contains(g, byFlight) {
+		// … plus the background updater (started by NewPdOracle / VerifStartUpdater)
+		updater := bytes.Contains(g, byUpdater) || bytes.Contains(g, byOracles)
+		if !bytes.Contains(g, byMain) && !bytes.Contains(g, byFlight) && !updater {
 			continue
 		}
 		nl := bytes.IndexByte(g, '\n')
@@ -208,6 +233,8 @@ func allParked(dump []byte) bool {
 		switch {
 		case bytes.HasPrefix(state, stRecv) && bytes.Contains(g, atPD):
 		case bytes.HasPrefix(state, stSelect) && bytes.Contains(g, atFlight):
+		case updater && bytes.HasPrefix(state, stSelect) && bytes.Contains(g, byUpdater) && !bytes.Contains(g, atPD):
+			// the updater idles in the select of its loop
 		default:
 			return false
 		}
@@ -233,6 +260,8 @@ type valObs struct {
 }
 
 type world struct {
+	hasUpd  bool // the background updater runs
+	ticks   int
 	pd      *scriptPD
 	o       oracle.Oracle
 	results chan result
@@ -418,6 +447,9 @@ func parseWho(s string) (int, bool) {
 	if s == "f" {
 		return -1, true
 	}
+	if s == "u" {
+		return -2, true
+	}
 	t, err := strconv.Atoi(s)
 	return t, err == nil && t >= 0 && t < 1000
 }
@@ -580,7 +612,7 @@ func exec(line string) string {
 	return vx.Guard(func() string {
 		out := exec1(line)
 		switch strings.Fields(line + " .")[0] {
-		case "get", "aget", "val", "issue", "arrive":
+		case "get", "aget", "val", "issue", "arrive", "tick":
 			if w != nil && out != "bad-op" {
 				if c := w.check(); c != "ok" {
 					return c + " | " + out
@@ -600,7 +632,7 @@ func exec1(line string) string {
 	i := func(s string) (int64, bool) { v, err := strconv.ParseInt(s, 10, 64); return v, err == nil }
 	if f[0] != "reset" && w == nil {
 		switch f[0] {
-		case "get", "aget", "val", "issue", "arrive", "low", "check", "isexp", "until", "p-exp":
+		case "get", "aget", "val", "issue", "arrive", "tick", "low", "check", "isexp", "until", "p-exp":
 			return "bad-op"
 		}
 	}
@@ -608,7 +640,8 @@ func exec1(line string) string {
 		w.seq++
 	}
 	switch {
-	case f[0] == "reset" && len(f) == 4:
+	case f[0] == "reset" && (len(f) == 4 || len(f) == 5):
+		withUpd := len(f) == 5 && f[4] == "1"
 		pd0, ok := u(f[2])
 		if !ok || (f[1] != "empty" && f[1] != "seeded") {
 			return "bad-op"
@@ -633,10 +666,11 @@ func exec1(line string) string {
 		}
 		oracles.EnableTSValidation.Store(f[3] == "1")
 		p := &scriptPD{last: pd0}
-		nw := &world{pd: p, results: make(chan result, 4096), running: map[int]bool{}, gets: map[int]*getObs{}, vals: map[int]*valObs{}}
+		nw := &world{hasUpd: withUpd, pd: p, results: make(chan result, 4096), running: map[int]bool{}, gets: map[int]*getObs{}, vals: map[int]*valObs{}}
 		if f[1] == "seeded" {
 			p.auto = true
-			o, err := oracles.NewPdOracle(p, &oracles.PDOracleOptions{UpdateInterval: time.Hour, NoUpdateTS: true})
+			// with the updater: its ticker period is an hour, so it only moves when the script makes it (op `tick`)
+			o, err := oracles.NewPdOracle(p, &oracles.PDOracleOptions{UpdateInterval: time.Hour, NoUpdateTS: !withUpd})
 			if err != nil {
 				return "error"
 			}
@@ -646,6 +680,9 @@ func exec1(line string) string {
 			nw.o = o
 		} else {
 			nw.o = oracles.VerifNewEmptyPdOracle(p, time.Hour)
+			if withUpd {
+				oracles.VerifStartUpdater(nw.o)
+			}
 		}
 		w = nw
 		w.observe()
@@ -732,6 +769,19 @@ func exec1(line string) string {
 		}
 		w.observe()
 		return out
+	case f[0] == "tick" && len(f) == 1:
+		if !w.hasUpd || w.pd.find(-2, false) != nil || w.pd.find(-2, true) != nil {
+			return "bad-op"
+		}
+		// every trigger asks for a shorter staleness than the one before, so the loop sees a changed interval
+		w.ticks++
+		oracles.VerifTriggerUpdate(w.o, 3000*time.Second-time.Duration(w.ticks)*10*time.Second)
+		quiesce()
+		w.observe()
+		if w.pd.find(-2, false) != nil {
+			return "upd pending"
+		}
+		return "upd idle"
 	case f[0] == "low" && len(f) == 1:
 		return w.lowStr()
 	case f[0] == "check" && len(f) == 1:
@@ -841,6 +891,7 @@ func exec1(line string) string {
 // ---------------------------------------------------------------- generation
 
 type gen struct {
+	kinds  string // caller kinds of the running case
 	run    *vx.Run
 	r      *vx.Rand
 	caseNo int
@@ -853,14 +904,19 @@ func (g *gen) do(op string) string {
 	return out
 }
 
-func (g *gen) newCase(mode string, pd0 uint64, validation bool) {
+func (g *gen) newCase(mode string, pd0 uint64, validation bool, kinds string) {
+	g.kinds = kinds
 	g.caseNo++
 	g.run.Comment(fmt.Sprintf("case %d", g.caseNo))
 	v := "1"
 	if !validation {
 		v = "0"
 	}
-	g.do(fmt.Sprintf("reset %s %d %s", mode, pd0, v))
+	if strings.Contains(kinds, "U") {
+		g.do(fmt.Sprintf("reset %s %d %s 1", mode, pd0, v))
+	} else {
+		g.do(fmt.Sprintf("reset %s %d %s", mode, pd0, v))
+	}
 }
 
 type event struct {
@@ -872,7 +928,10 @@ type event struct {
 func (g *gen) enabled(next, n int) []event {
 	var ev []event
 	if next < n {
-		ev = append(ev, event{"start", next})
+		// a tick of the updater can only start when the previous one is over (one goroutine runs them all)
+		if !(g.kinds[next] == 'U' && (w.pd.find(-2, false) != nil || w.pd.find(-2, true) != nil)) {
+			ev = append(ev, event{"start", next})
+		}
 	}
 	w.pd.mu.Lock()
 	for _, k := range w.pd.calls {
@@ -890,19 +949,27 @@ func (g *gen) enabled(next, n int) []event {
 }
 
 func whoStr(t int) string {
+	if t == -2 {
+		return "u"
+	}
 	if t < 0 {
 		return "f"
 	}
 	return strconv.Itoa(t)
 }
 
-// kinds: G get, A async get, P validate the largest issued ts, N validate issued+1, F validate issued+1000,
+// kinds: U one tick of the background updater, G get, A async get, P validate the largest issued ts, N validate issued+1, F validate issued+1000,
 // S same as P but flagged stale read
 func (g *gen) startCaller(t int, kind byte) {
 	w.pd.mu.Lock()
 	last := w.pd.last
 	w.pd.mu.Unlock()
+	if kind == 'S' && w.hasUpd {
+		kind = 'P' // a stale read may signal the updater to shrink its interval: keep the updater under script control
+	}
 	switch kind {
+	case 'U':
+		g.do("tick")
 	case 'G':
 		g.do(fmt.Sprintf("get %d", t))
 	case 'A':
@@ -921,7 +988,7 @@ func (g *gen) startCaller(t int, kind byte) {
 // runSchedule executes one case: choices[i] selects among the enabled events at decision i (0 beyond the vector);
 // returns the number of alternatives seen at each decision.
 func (g *gen) runSchedule(mode string, pd0 uint64, kinds string, choices []int, pick func(n int) int, incOf func() uint64) []int {
-	g.newCase(mode, pd0, true)
+	g.newCase(mode, pd0, true, kinds)
 	var widths []int
 	next := 0
 	for step := 0; step < 200; step++ {
@@ -1064,6 +1131,9 @@ func (g *gen) randomCase() {
 	r := g.r
 	n := 2 + r.Intn(7)
 	alpha := "GGGAPSNF"
+	if r.Chance(50) {
+		alpha = "GGGAPNFUU" // a world with the background updater
+	}
 	kinds := make([]byte, n)
 	for k := range kinds {
 		kinds[k] = alpha[r.Intn(len(alpha))]
@@ -1089,7 +1159,12 @@ func (g *gen) randomCase() {
 	g.run.Count("random-case")
 	g.caseNo++
 	g.run.Comment(fmt.Sprintf("case %d", g.caseNo))
-	g.do(fmt.Sprintf("reset %s %d 1", mode, pd0))
+	g.kinds = string(kinds)
+	if strings.Contains(g.kinds, "U") {
+		g.do(fmt.Sprintf("reset %s %d 1 1", mode, pd0))
+	} else {
+		g.do(fmt.Sprintf("reset %s %d 1", mode, pd0))
+	}
 	next := 0
 	for step := 0; step < 300; step++ {
 		ev := g.enabled(next, n)
@@ -1125,7 +1200,7 @@ func (g *gen) randomCase() {
 }
 
 func (g *gen) validationOff() {
-	g.newCase("seeded", 50, false)
+	g.newCase("seeded", 50, false, "")
 	g.do("val 1 999999 0")
 	g.do("val 2 18446744073709551615 1")
 	g.do("get 3")
@@ -1317,6 +1392,29 @@ func main() {
 			}
 		}
 	}
+	// the background updater among the callers: every schedule of 1..3 actors at least one of which is a tick
+	for n := 1; n <= 3; n++ {
+		updAlpha := "GPNFU"
+		if n == 3 && !thorough {
+			updAlpha = "GNU"
+		}
+		for si, kinds := range allKinds(updAlpha, n) {
+			if !strings.Contains(kinds, "U") {
+				continue
+			}
+			g.exhaustive("seeded", kinds, false)
+			if n <= 2 || (thorough && si%4 == 0) {
+				g.exhaustive("empty", kinds, false)
+			}
+		}
+	}
+	if thorough {
+		for _, kinds := range allKinds("GU", 4) {
+			if strings.Contains(kinds, "U") {
+				g.exhaustive("seeded", kinds, false)
+			}
+		}
+	}
 	if !thorough {
 		// 4 concurrent callers: all issue/arrival orders once everybody has called
 		for _, kinds := range []string{"GGGG", "GGNP", "NFGG", "PGFN"} {
@@ -1331,6 +1429,8 @@ func main() {
 			g.exhaustive("seeded", kinds, true)
 		}
 		g.exhaustive("seeded", "AGAGA", true)
+		g.exhaustive("seeded", "UGGN", true)
+		g.exhaustive("seeded", "UNPF", true)
 	}
 	g.validationOff()
 
